@@ -1543,10 +1543,14 @@ fn binary_search_by_msg_index(
             .all_msgs
             .binary_search_by(|m| m.index.cmp(&wanted_msg_idx));
         if let Ok(all_msgs_idx) = all_msgs_idx {
-            let filtered_msg_index = stream
-                .filtered_msgs
-                .binary_search(&all_msgs_idx)
-                .unwrap_or_else(|e| e);
+            let filtered_msg_index = if stream.filters_active {
+                stream
+                    .filtered_msgs
+                    .binary_search(&all_msgs_idx)
+                    .unwrap_or_else(|e| e)
+            } else {
+                all_msgs_idx
+            };
             Ok(filtered_msg_index)
         } else {
             Err(format!(
